@@ -1301,6 +1301,11 @@ def replay(ctx, violations):
             case.pop('trace', None)
             vec = case.pop('vector', None)
             nr = case['nr']
+            if case.get('proj') == 'cond':
+                # fresh rank processes: let every rank feed the condensate accumulator once, so that a rank that
+                # holds no sample in the replayed run knows which accumulator to log (see _run_prof)
+                warm = dict(case, v=[[k % 3, 1] for k in range(2 * nr)], w=[[1, 4]] * (2 * nr), tid=899999, wexp=0, steer=False)
+                runner.run_batch(nr, [warm])
             res = runner.run_batch(nr, [case])[0]
             if res[0] == 'failed':
                 raise Machinery('simulated run failed: ' + res[1][-600:])
